@@ -219,7 +219,8 @@ def instances(tier):
         out.append({'func': 'h_poly', 'params': {'n': [2, 2], 'power': -1, 'scalar_shift': kind, 'int_shift': [1, 1]}})
         out.append({'func': 'h_poly', 'params': {'n': [1, 1], 'power': 3, 'scalar_shift': kind, 'int_shift': [2 ** 31, -2 ** 22]}})
     for kind in ('rand', 'rand_norm', 'rand_stab'):
-        for n, r in [([2, 3], 2), ([2, 2, 3], [1, 2, 3, 1]), ([3, 2, 2], 1)]:
+        # (ranks above the mode sizes / above what the unfoldings support are requested profiles like any other)
+        for n, r in [([2, 3], 2), ([2, 2, 3], [1, 2, 3, 1]), ([3, 2, 2], 1), ([2, 2, 2], 3), ([2, 3], [1, 4, 1])]:
             out.append({'func': 'h_rand', 'params': {'kind': kind, 'n': n, 'r': r, 'seed': 7}})
     return out
 
